@@ -77,7 +77,7 @@ def config_runnable(config):
     return True
 
 
-def prune_cache(keep=12):
+def prune_cache(keep=48):
     if not os.path.isdir(CACHE):
         return
     ds = [os.path.join(CACHE, d) for d in os.listdir(CACHE) if d.startswith('b_')]
@@ -161,7 +161,7 @@ ASAN_ENV = {'ASAN_OPTIONS': 'abort_on_error=1:detect_leaks=1:allocator_may_retur
 
 def record(exe, ops_path, trace_path, timeout=600, extra_args=()):
     """Run the executor. Returns (status, output): status in ok|timeout|crash."""
-    env = dict(os.environ, **ASAN_ENV)
+    env = dict(os.environ, VERIF_ALARM=str(max(5, timeout - 15)), **ASAN_ENV)
     try:
         rc, o = sh([exe, ops_path, trace_path] + list(extra_args), timeout=timeout, env=env)
     except subprocess.TimeoutExpired:
@@ -253,7 +253,8 @@ def txt(b):
         return repr(b)
 
 
-def run_trace_check(ops_lines, module='TraceUrl', config='default', tag='run', nshards=NCPU, exec_args=(), main='exec_main.cpp'):
+def run_trace_check(ops_lines, module='TraceUrl', config='default', tag='run', nshards=NCPU, exec_args=(), main='exec_main.cpp',
+                    validate=True):
     """Shard ops, record on the real code, validate with TLC.  Returns a result dict with
     diags (each enriched with the event and the ops of its execution), counts, TLC stats."""
     os.makedirs(OUT, exist_ok=True)
@@ -269,7 +270,15 @@ def run_trace_check(ops_lines, module='TraceUrl', config='default', tag='run', n
         trf = os.path.join(work, 's%02d.ndjson' % i)
         open(opsf, 'w').write('\n'.join(sh_ops) + '\n')
         status, o = record(exe, opsf, trf, extra_args=exec_args)
-        r = tlc_trace(module, trf, work)
+        if validate:
+            r = tlc_trace(module, trf, work)
+        else:
+            # record only (the trace is compared byte for byte with an already validated one); a run that
+            # did not complete still yields its `crashed` diagnostic
+            nl = sum(1 for _ in open(trf, 'rb'))
+            r = dict(diags=[], done=dict(lines=nl, nunspec=0), states=0, distinct=0)
+            if status != 'ok':
+                r['diags'].append(dict(l=nl, who='a', kind='crashed', what=status))
         r['status'] = status
         r['keys'] = nontrivial_keys(trf)
         r['san_output'] = o if status != 'ok' else ''
@@ -311,6 +320,42 @@ def run_trace_check(ops_lines, module='TraceUrl', config='default', tag='run', n
     return out
 
 
+def diff_traces(work0, work1, config0, config1, max_diags=8):
+    """C18: the traces recorded from the same ops on two build configurations must be byte-identical.
+    Returns dict(lines, diags); one diagnostic per shard at the first differing line."""
+    diags, nlines = [], 0
+    for f0 in sorted(glob.glob(os.path.join(work0, 's*.ndjson'))):
+        f1 = os.path.join(work1, os.path.basename(f0))
+        if not os.path.exists(f1):
+            continue
+        a = open(f0, 'rb').read()
+        b = open(f1, 'rb').read()
+        nlines += a.count(b'\n')
+        if a == b:
+            continue
+        la, lb = a.splitlines(), b.splitlines()
+        i = 0
+        while i < min(len(la), len(lb)) and la[i] == lb[i]:
+            i += 1
+        def ev(ls):
+            try:
+                return json.loads(ls[i]) if i < len(ls) else {'e': 'missing'}
+            except ValueError:
+                return {'e': 'unparseable'}
+        e0, e1 = ev(la), ev(lb)
+        opsf = f0[:-len('.ndjson')] + '.ops'
+        ops = open(opsf).read().splitlines() if os.path.exists(opsf) else []
+        fields = []
+        for k in ('oa', 'ou', 'oc'):
+            if isinstance(e0.get(k), dict) and isinstance(e1.get(k), dict):
+                fields += ['%s.%s' % (k, f) for f in set(e0[k]) | set(e1[k]) if e0[k].get(f) != e1[k].get(f)]
+        fields += [f for f in set(e0) | set(e1) if f not in ('oa', 'ou', 'oc') and e0.get(f) != e1.get(f)]
+        if len(diags) < max_diags:
+            diags.append(dict(kind='config-differ', who='a', l=i + 1, config0=config0, config=config1, event=e0, other=sample_of(e1),
+                              fields=sorted(fields)[:12], exec_ops=exec_ops_for(ops, e0.get('n', e1.get('n'))), san='', props=['C18']))
+    return dict(lines=nlines, diags=diags)
+
+
 def nontrivial_keys(trace_path):
     """Distinct non-trivial cases of a trace: one key per distinct (event kind, operation,
     argument bytes) whose outcome is not the plain default -- the call failed, or the
@@ -347,7 +392,8 @@ def nontrivial_keys(trace_path):
         elif 'ok' in e or 'out' in e or 'r' in e:
             nontrivial = True
         if nontrivial:
-            arg = json.dumps([k, e.get('op'), e.get('in'), e.get('v'), e.get('b'), e.get('args'), lim and e.get('L')], sort_keys=True)
+            arg = json.dumps([k, e.get('op'), e.get('in'), e.get('v'), e.get('b'), e.get('args'), lim and e.get('L'),
+                              e.get('len'), e.get('k'), e.get('r') if isinstance(e.get('r'), list) else None], sort_keys=True)
             keys.add(hashlib.blake2b(arg.encode(), digest_size=8).digest())
     f.close()
     return keys
@@ -364,7 +410,7 @@ def sample_of(e):
         s['href_out'] = txt(e['oa']['href'])
     elif isinstance(e.get('oa'), dict):
         s['valid'] = False
-    for k in ('r', 'pi', 'L'):
+    for k in ('r', 'pi', 'L', 'len', 'k'):
         if k in e:
             s[k] = e[k]
     return s
@@ -471,6 +517,34 @@ def load_known():
     return [k for k in json.load(open(p)).get('findings', []) if k.get('status') == 'open']
 
 
+def has_ypogegrammeni(ev):
+    """D11: one of the compared spellings contains U+0345, literally or inside a canonical decomposition"""
+    import unicodedata
+    for k in ('in', 'b'):
+        v = ev.get(k)
+        if isinstance(v, list):
+            try:
+                s = bytes(v).decode('utf-8')
+            except (ValueError, UnicodeDecodeError):
+                continue
+            if '\u0345' in unicodedata.normalize('NFD', s):
+                return True
+    return False
+
+
+def protocol_colon_or_tab(ev):
+    """D17: the protocol text of the event has an (escaped / inner) ':' or an ASCII tab / newline"""
+    cands = []
+    init = ev.get('init') or {}
+    if isinstance(init.get('protocol'), list) and init['protocol'] != [-7]:
+        pr = bytes(b for b in init['protocol'] if 0 <= b < 256)
+        cands.append(pr[:-1] if pr.endswith(b':') and not pr.endswith(b'\\:') else pr)
+    if ev.get('kind') == 'string' and isinstance(ev.get('s'), list):
+        s = bytes(b for b in ev['s'] if 0 <= b < 256)
+        cands.append(s if b'\\:' in s or any(c in s for c in b'\t\n\r') else b'')
+    return any(b':' in c or any(x in c for x in b'\t\n\r') for c in cands)
+
+
 def match_known(d, prop, known):
     """A diagnostic is a known finding only if an OPEN entry for this property matches it narrowly."""
     for k in known:
@@ -484,6 +558,12 @@ def match_known(d, prop, known):
         if m.get('limit_active') and not d.get('limit_active'):
             continue
         if 'who' in m and d.get('who') not in m['who']:
+            continue
+        if m.get('relaxed_bidi') and d.get('relaxed') is not True:
+            continue       # only divergences that the trace spec itself classified as exactly the D10 reading
+        if m.get('predicate') == 'ypogegrammeni' and not has_ypogegrammeni(d.get('event', {})):
+            continue
+        if m.get('predicate') == 'protocol_colon_or_tab' and not protocol_colon_or_tab(d.get('event', {})):
             continue
         if 'event' in m and d.get('event', {}).get('e') != m['event']:
             continue
@@ -527,6 +607,8 @@ def describe(d):
     for k in ('in', 'v'):
         if isinstance(ev.get(k), list):
             s += ' %s=%r' % (k, txt(ev[k])[:80])
+    if d.get('kind') == 'config-differ':
+        s += ' configurations %s vs %s differ in %s' % (d.get('config0'), d.get('config'), d.get('fields'))
     if isinstance(d.get('diff'), dict):
         for f, x in list(d['diff'].items())[:3]:
             exp, got = x.get('exp'), x.get('got')
@@ -539,9 +621,10 @@ def describe(d):
 
 
 def write_evidence(prop, tier, seed, level, coverage, wall, violations, assumptions=()):
-    os.makedirs(os.path.join(VERIF, 'evidence'), exist_ok=True)
+    evdir = os.environ.get('VERIF_EVIDENCE_DIR') or os.path.join(VERIF, 'evidence')
+    os.makedirs(evdir, exist_ok=True)
     ev = dict(property_id=prop, tier=tier, seed=int(seed), level=level, coverage=coverage,
               assumptions=list(assumptions), wall_s=round(wall, 2), violations=int(violations))
-    with open(os.path.join(VERIF, 'evidence', prop + '.json'), 'w') as f:
+    with open(os.path.join(evdir, prop + '.json'), 'w') as f:
         json.dump(ev, f, indent=1, sort_keys=True)
     return ev
